@@ -150,7 +150,31 @@ def run(ctx, config='rel-all'):
             continue
         for tr in ('Send', 'Sync'):
             tprobes.append(('%s:%s' % (tr, a['path']), matrix.trait_probe(ty, tr, True)))
-    tres = witness.run_probes(libdir, tprobes)
+    # payload probes: a public generic container instantiated with an element type that is neither Send nor Sync
+    # (Rc<u8>) must itself be neither -- otherwise arena handles (Vec<'b, _>, &'b Bump, String<'b>) stored as elements
+    # could cross threads inside it (what std guarantees with `T: Send` / `T: Sync` bounds on its unsafe impls)
+    pay = []
+    for a in pub_adts:
+        ty = instantiate(a, payload='std::rc::Rc<u8>')
+        if ty is None or not any(p.startswith('ty:') and p.split(':', 1)[1] not in ('F',) for p in a['params']):
+            continue
+        for tr in ('Send', 'Sync'):
+            pay.append(('payload-%s:%s' % (tr, a['path']), matrix.trait_probe(ty, tr, True)))
+    tres = witness.run_probes(libdir, tprobes + pay)
+    npay = 0
+    for name, _ in pay:
+        v = tres.get(name)
+        if v is None:
+            continue
+        npay += 1
+        tr, path = name[len('payload-'):].split(':', 1)
+        if v['ok']:
+            ctx.violation('R3', path, 'payload-%s' % tr, '%s with an element type that is not %s (Rc<u8>) is accepted as %s: non-%s elements -- for example vectors, strings or references tied to an arena -- could be moved or shared across threads inside it' % (path, tr, tr, tr))
+        elif 'E0277' in v['codes']:
+            ctx.ok('R3', '%s<.. Rc<u8> ..> is not %s' % (path, tr), 'rustc: E0277')
+        else:
+            ctx.note('payload probe for %s inconclusive: %s' % (path, v['codes']))
+    ctx.floor('R3.payload', npay, 14, 'payload auto-trait probes on generic public types')
     arena_entries = arena_entry_set(db)
     cg = call_graph(db)
     for a in pub_adts:
@@ -187,7 +211,7 @@ def run(ctx, config='rel-all'):
                 ctx.note('auto-trait probe for %s inconclusive: %s' % (a['path'], v['codes']))
 
 
-def instantiate(a):
+def instantiate(a, payload=None):
     name = a['path'].split('::')
     path = 'bumpalo::' + a['path']
     args = []
@@ -198,14 +222,15 @@ def instantiate(a):
         elif k == 'const':
             args.append('1')
         else:
+            el = payload or 'u32'
             if n == 'I':
-                args.append('std::vec::IntoIter<u32>')
+                args.append('std::vec::IntoIter<%s>' % el)
             elif n == 'F':
-                args.append('fn(&mut u32) -> bool')
+                args.append('fn(&mut %s) -> bool' % el)
             elif n == 'E':
-                args.append('u32')
+                args.append(el)
             else:
-                args.append('u32')
+                args.append(el)
     return path + ('<' + ', '.join(args) + '>' if args else '')
 
 
